@@ -42,6 +42,14 @@ def handle (args : List Sexp) : String :=
       | some v => toString (sexpOfValue v)
       | none => "(error bad-op)"
     | _, _ => "(error bad-value)"
+  | [.atom "not", a] =>
+    match valueOfSexp a with
+    | some a => toString (sexpOfValue (not3 a))
+    | none => "(error bad-value)"
+  | [.atom "if", c, t, e] =>
+    match valueOfSexp c, valueOfSexp t, valueOfSexp e with
+    | some c, some t, some e => toString (sexpOfValue (if3 c t e))
+    | _, _, _ => "(error bad-value)"
   | [.atom "between", x, a, b] =>
     match valueOfSexp x, valueOfSexp a, valueOfSexp b with
     | some x, some a, some b => toString (sexpOfValue (betweenV x a b))
